@@ -58,7 +58,7 @@ def check(run, project):
     w45_struct(run, roles, L)
     w5_arrays(run, roles)
     w6(run, roles, L)
-    w7(run, roles)
+    w7(run, roles, L)
     framing(run, roles, L)
     from .c09 import s3
     s3(run, roles, L)  # which session bit makes the first parameter opaque (decrypt for commands, encrypt for responses)
@@ -140,6 +140,31 @@ def eval_pred(test, c, asc, L, tparam):
             target = L.struct_types.get(test.args[1].id) or {"TPMS_PARAMS": L.TPMS_PARAMS}.get(test.args[1].id)
             return isinstance(c, ClassV) and target is not None and c.is_subclass_of(target)
     raise AnalysisError(f"W1: dispatcher predicate `{norm(test)}` is outside the modelled vocabulary")
+
+
+def type_atom(text, subject):
+    """a predicate over a type, from the text of a path atom: `subject` (e.g. `type(obj)`) is the type expression; returns
+    f(c, L) -> bool, or None when the atom does not speak about the subject / is outside the vocabulary of eval_pred"""
+    try:
+        tree = ast.parse(text, mode="eval").body
+    except SyntaxError:
+        return None
+    hit = []
+
+    class S(ast.NodeTransformer):
+        def visit(self, node):
+            if isinstance(node, ast.expr) and norm(node) == subject:
+                hit.append(1)
+                return ast.copy_location(ast.Name(id="__t__", ctx=ast.Load()), node)
+            return self.generic_visit(node)
+    tree = S().visit(tree)
+    ast.fix_missing_locations(tree)
+    if not hit:
+        return None
+
+    def f(c, L):
+        return eval_pred(tree, c, None, L, "__t__")
+    return f
 
 
 def w1(run, roles, L):
@@ -497,7 +522,7 @@ def w6(run, roles, L):
 
 
 # ------------------------------------------------------------------------------ W7
-def w7(run, roles):
+def w7(run, roles, L=None):
     """union walker, decided on its path summaries: arm = inverted _selected_by at the selector, else at None, else a value
     error; the arm's field is looked up by name; an arm without payload decodes to nothing; otherwise exactly one decode of
     field.type at path / PathNode(field.name) (count = _list_size[member] for list arms) and the object holds that arm."""
@@ -507,8 +532,12 @@ def w7(run, roles):
     d = roles.dispatcher.name
     S = paths.Summariser(mod, fn)
     ps = [p for p in S.paths() if not (p.end == "raise" and p.value is not None and norm(p.value) == "AssertionError")]
-    run.require(len(ps) >= 5, "W7: paths of process_tpmu not found")
     inv = {norm(e.targets[0]): e for p in ps for k, e, _ in p.effects if k == "assign" and isinstance(e.value, ast.DictComp)}
+    if not inv and L is not None:
+        # the arm is not looked up in an inverted copy of _selected_by: whatever the walker does instead is folded over every
+        # union of the layout and every selector value (W7 in folding mode)
+        return w7_fold(run, roles, L)
+    run.require(len(ps) >= 5, "W7: paths of process_tpmu not found")
     ok = len(inv) == 1 and match(list(inv.values())[0].value, "{M_v: M_k for M_k, M_v in tpm_type._selected_by.items()}") is not None
     run.ob("W7", ok, "arm lookup = inverted _selected_by (selector value -> member)",
            f"selection map is `{[norm(e.value) for e in inv.values()]}`", module=mod, node=fn, func=fn.name, construct="selection map")
@@ -595,6 +624,146 @@ def w7(run, roles):
         run.ob("W7", okr, "union object holds exactly the selected member", f"returns `{p.value_text()}`", module=mod, node=p.node or fn,
                func=fn.name, construct="process_tpmu return")
     run.require(n_dec >= 2, "W7: decoding paths of process_tpmu not found")
+
+
+def w7_fold(run, roles, L):
+    """W7 in folding mode.  The union walker is evaluated (tpmsa.minieval, no import) for every union class of the layout and
+    every selector value of its table, plus one value outside the table; its sub-decodes are stubbed and recorded.  Required
+    (the meaning of the inverted `_selected_by` lookup): the member is the LAST one listed for the selector, else the last one
+    listed for None, else a value error; a member without payload decodes to (0, None); otherwise exactly one decode of the
+    member's type at path / PathNode(member), with count = _list_size[member] exactly for list members and the two context
+    arguments handed down, and the object holds that one member."""
+    from ..minieval import Interp, Raised, TypeRef, ListAlias, GenResult
+    from ..specmodel import ClassV, ListT, EnumMember
+    mod, project = roles.mod, roles.project
+    fn = roles.walkers["process_tpmu"]
+    d = roles.dispatcher.name
+    params = [a.arg for a in fn.args.args]
+    if params[:3] != ["tpm_type", "path", "selector"]:
+        raise AnalysisError("W7: process_tpmu no longer takes (tpm_type, path, selector, ...)")
+
+    def skey(v):
+        if isinstance(v, EnumMember):
+            return v.value
+        if v is None or isinstance(v, (int, str)):
+            return v
+        return f"<{getattr(v, 'name', repr(v))}>"
+
+    def tref(t):
+        if t is None:
+            return None
+        if isinstance(t, ListT):
+            return ListAlias(tref(t.elem))
+        return TypeRef(getattr(t, "name", str(t)))
+
+    n_cases = n_unions = 0
+    from .c20 import reachable_unions   # (the unions some command / response / structure can reach, as in C20-T5)
+    for c in sorted(reachable_unions(L), key=lambda u: u.name):
+        uname = c.name
+        sb = L.dict_attr(c, "_selected_by")
+        ls = L.dict_attr(c, "_list_size") if c.has("_list_size") else None
+        table = [(k, skey(v)) for k, v, _ in sb.items]
+        sizes = {k: skey(v) for k, v, _ in ls.items} if ls is not None else None
+        flds = L.fields(c)
+        n_unions += 1
+        outside = "<no such selector>"
+        for sel in list(dict.fromkeys(v for _, v in table if v is not None)) + [outside]:
+            n_cases += 1
+            # ---- required
+            hit = [k for k, v in table if v == sel and v is not None] or [k for k, v in table if v is None]
+            member = hit[-1] if hit else None
+            # ---- observed
+            calls = []
+
+            def process_stub(*a, **kw):
+                calls.append((a, kw))
+                return GenResult((7, "<value>"), [("child", len(calls))])
+            path = TypeRef("path")
+            path.attrs["__binop__"] = lambda op, b: ("path", op, b)
+            made = []
+            T = TypeRef(uname, attrs={"_selected_by": dict(table)})
+            if sizes is not None:
+                T.attrs["_list_size"] = dict(sizes)
+            T.attrs["__call__"] = lambda *a, **kw: made.append((a, kw)) or ("object", len(made))
+            field_objs = [TypeRef("Field", attrs={"name": n_, "type": tref(t_)}) for n_, t_ in flds]
+            g = {"fields": lambda t_: list(field_objs) if t_ is T else [], "is_list": lambda t_: isinstance(t_, ListAlias),
+                 d: process_stub, "MarshalEvent": lambda *a, **kw: ("event",) + tuple(a), "PathNode": lambda *a, **kw: ("node",) + tuple(a) +
+                 tuple(sorted(kw.items())), "ValueConstraint": lambda *a, **kw: ("constraint",), "ValidValues": lambda *a, **kw: ("valid",) + tuple(a)}
+            it = Interp(g, max_steps=200000, module_tree=mod.tree)
+            # functions of other project modules the walker calls by name are evaluated from their source as well
+            for nm_, b_ in mod.import_bindings().items():
+                if nm_ in g:
+                    continue
+                r_ = project.resolve_name(mod, nm_)
+                f_ = r_[0].functions().get(r_[1]) if r_ and r_[1] else None
+                if f_ is not None and not f_.decorator_list:
+                    g[nm_] = (lambda f__: lambda *a, **kw: it.call(f__, list(a), kw))(f_)
+            it.globals.update(g)
+            SC, AOE = TypeRef("size_constraints"), TypeRef("abort_on_error")
+            kwargs = {}
+            if "size_constraints" in params:
+                kwargs["size_constraints"] = SC
+            if "abort_on_error" in params:
+                kwargs["abort_on_error"] = AOE
+            where = f"{uname} with selector {sel}"
+            try:
+                res = ("return", it.call(fn, [T, path, sel], kwargs))
+            except Raised as r:
+                res = ("raise", r.cls)
+            own = [y for y in it.yields if not (isinstance(y, tuple) and y and y[0] == "child")]
+            if member is None:
+                ok = res == ("raise", "ValueConstraintViolatedError") and not calls
+                run.ob("W7", ok, f"{where}: no member, no wildcard member -> value error",
+                       f"process_tpmu for {where} (no member listed for it and no wildcard member) gives {res[0]} {res[1]!r} after "
+                       f"{len(calls)} decode(s) where a ValueConstraintViolatedError is required", module=mod, node=fn, func=fn.name,
+                       construct="selection chain")
+                continue
+            ftype = dict(flds).get(member, "?")
+            if ftype == "?":
+                raise AnalysisError(f"W7: {uname}._selected_by names `{member}`, which is not a field (C20-T4)")
+            okev = own[:1] == [("event", path, T, Ellipsis)] and len(own) == 1
+            run.ob("W7", okev, f"{where}: the union's own event comes first, once", f"process_tpmu for {where} yields {own!r} of its own",
+                   module=mod, node=fn, func=fn.name, construct="process_tpmu return")
+            if ftype is None:
+                ok = res == ("return", (0, None)) and not calls
+                run.ob("W7", ok, f"{where}: member `{member}` has no payload -> (0, None)", f"process_tpmu for {where} (member `{member}`, "
+                       f"without payload) gives {res[0]} {res[1]!r} after {len(calls)} decode(s) where (0, None) and no decode is required",
+                       module=mod, node=fn, func=fn.name, construct="empty member")
+                continue
+            want_t = tref(ftype)
+            islist = isinstance(ftype, ListT)
+            desc = None
+            if res[0] != "return" or len(calls) != 1:
+                desc = f"gives {res[0]} {res[1]!r} after {len(calls)} decode(s)"
+                picked = None
+            else:
+                a, kw = calls[0]
+                got_t = a[0] if a else kw.get("tpm_type")
+                got_p = a[1] if len(a) > 1 else kw.get("path")
+                same_t = (isinstance(got_t, TypeRef) and isinstance(want_t, TypeRef) and got_t.name == want_t.name) or \
+                    (isinstance(got_t, ListAlias) and isinstance(want_t, ListAlias) and getattr(got_t.elem, "name", None) == getattr(want_t.elem, "name", None))
+                picked = next((n_ for n_, fo in zip((n for n, _ in flds), field_objs) if fo.attrs["type"] is got_t), None)
+                if not same_t or got_p != ("path", "Div", ("node", member)):
+                    desc = f"decodes {got_t!r} at {got_p!r} (member `{picked}`)" if picked != member else f"decodes at {got_p!r}"
+                elif kw.get("size_constraints") is not SC or kw.get("abort_on_error") is not AOE:
+                    desc = "does not hand size_constraints / abort_on_error down to the member's decode"
+                elif set(kw) - {"size_constraints", "abort_on_error", "count", "tpm_type", "path"} or len(a) > 2:
+                    desc = f"passes extra inputs {sorted(set(kw) - {'size_constraints', 'abort_on_error', 'count'})} to the member's decode"
+                elif (kw.get("count") if islist else None) != (sizes or {}).get(member) if islist else kw.get("count") is not None:
+                    desc = f"decodes with count={kw.get('count')!r}" + (f" where _list_size[{member}] = {(sizes or {}).get(member)!r} is required" if islist else
+                                                                        " although the member is not a list")
+                elif not (isinstance(res[1], tuple) and len(res[1]) == 2 and res[1][0] == 7 and res[1][1] == ("object", 1)
+                          and made == [((), {member: "<value>"})]):
+                    desc = f"returns {res[1]!r} built from {made!r}"
+            kind = "union list arm count" if desc and "count" in desc else "process_tpmu return" if desc and desc.startswith("returns") else \
+                "selection chain" if desc and ("member `" in desc or "gives" in desc) else "process_tpmu child"
+            run.ob("W6" if kind == "union list arm count" else "W7", desc is None,
+                   f"{where}: member `{member}` decoded once at path / PathNode({member}) and returned as the only member",
+                   f"process_tpmu for {where} must decode member `{member}` (the last one listed for the selector, else the wildcard member): it {desc}",
+                   module=mod, node=fn, func=fn.name, construct=kind)
+    run.require(n_unions >= 10 and n_cases >= 60, f"W7: only {n_unions} unions / {n_cases} selector cases folded")
+    run.info(f"W7: the union walker does not use the inverted _selected_by table; it was folded over {n_unions} unions x their selector values "
+             f"({n_cases} cases) instead")
 
 
 # ------------------------------------------------------------------------------ framing
